@@ -13,19 +13,36 @@ Definition config_pfx : bytes := [99; 111; 110; 102; 105; 103]%N.  (* "config" *
 
 Inductive ckind := CNetmap | CNeoFS.
 
-(** [SetConfig(id, key, val)] *)
-Inductive cop := CSet (alpha : bool) (id key v : bytes).
+(** [SetConfig(id, key, val)].  The value argument is a stack item: the ABI
+    says ByteArray, but nothing converts it before [storage.Put], so an Integer
+    or a Boolean is stored in its canonical byte form (minimal little-endian
+    two's complement; true = 01, false = 00) and Null makes [storage.Put]
+    fault.  A byte string is stored as it is, whatever its content (it may
+    look like a non-minimal integer). *)
+Inductive cop := CSet (alpha : bool) (id key : bytes) (v : val).
 
-(** NeoFS emits SetConfig(id, key, val); Netmap emits nothing. *)
+Definition val_bytes (v : val) : option bytes :=
+  match v with
+  | VBytes b => Some b
+  | VInt z => Some (int_to_bytes z)
+  | VBool b => Some [if b then 1%N else 0%N]
+  | _ => None
+  end.
+Definition is_bytes (v : val) : bool := match v with VBytes _ => true | _ => false end.
+
+(** NeoFS emits SetConfig(id, key, val) — [runtime.Notify] checks the value
+    against the manifest type ByteArray and faults on an Integer or Boolean;
+    Netmap emits nothing. *)
 Definition cexec (kd : ckind) (s : store) (o : cop) : outcome (store * list val) :=
   match o with
   | CSet alpha id key v =>
       _ <-! oassert alpha;
-      s' <-! sput (config_pfx ++ key) v s;
-      Halt (s', match kd with
-                | CNetmap => []
-                | CNeoFS => [VList [VBytes id; VBytes key; VBytes v]]
-                end)
+      b <-! (match val_bytes v with Some b => Halt b | None => Fault end);
+      s' <-! sput (config_pfx ++ key) b s;
+      match kd with
+      | CNetmap => Halt (s', [])
+      | CNeoFS => _ <-! oassert (is_bytes v); Halt (s', [VList [VBytes id; VBytes key; VBytes b]])
+      end
   end.
 
 (** [Config]: Null when absent. *)
